@@ -315,6 +315,156 @@ def wanted_fields(r, decl, fields):
     return fields
 
 
+def check_enum(rep, name, jm, r, en, c, stats):
+    """(g) the enum class: fromByte/Short/Int/Long, read as the ordered if-chain it is and evaluated with Java's integer
+    semantics, maps every value of the declared width to the tag the reference table gives (a value named inside a range
+    may come back as the range class: it equals the nested constant), rejects exactly the values a closed enum does not
+    declare, and each constant's toX() returns its declared value"""
+    where = f"{name}:{en}"
+    e = r.enums[en]
+    fm = next((ms[0] for mn, ms in c["methods"].items() if re.fullmatch(r"from(Byte|Short|Int|Long)", mn)), None)
+    if fm is None:
+        rep.add("C19|java|enum|no-converter", f"{c['name']} has no fromByte/Short/Int/Long", where)
+        return
+    ev = javaeval.JEval(jm, c, fm, "parse")
+    ps = fm.get("params") or []
+    ty = ev.jty(javaeval.ptype(fm, 0))
+    if len(ps) != 1 or ty is None:
+        rep.add("C19|java|enum|unmodelled", f"{c['name']}.{fm['name']} signature", where)
+        return
+    nb = javaeval.BITS[ty]
+    ev.vars[ps[0]["name"]] = sym.sym("value", ty, -(1 << (nb - 1)), (1 << (nb - 1)) - 1)
+    chain = []          # (cond | None, result)
+
+    def result_of(st):
+        if st.get("k") == "BLOCK":
+            ss = st.get("stmts") or []
+            if len(ss) != 1:
+                return None
+            st = ss[0]
+        if st.get("k") == "THROW":
+            return ("reject",)
+        if st.get("k") == "RETURN":
+            x = st["e"]
+            if x.get("k") == "IDENTIFIER":
+                return ("tag", x["name"], False)
+            if x.get("k") == "NEW_CLASS":
+                a = x.get("args") or []
+                if len(a) == 1 and a[0].get("k") == "IDENTIFIER" and a[0]["name"] == ps[0]["name"]:
+                    return ("tag", x["type"].get("name"), True)
+            if x.get("k") == "METHOD_INVOCATION" and x["fn"].get("k") == "IDENTIFIER":
+                a = x.get("args") or []
+                if len(a) == 1 and a[0].get("k") == "IDENTIFIER" and a[0]["name"] == ps[0]["name"]:
+                    return ("tag", x["fn"]["name"], True)
+        return None
+    node = fm["body"]
+    ss = node.get("stmts") or []
+    cur = ss[0] if len(ss) == 1 else None
+    while cur is not None:
+        if cur.get("k") == "IF":
+            res = result_of(cur["then"])
+            cnd = ev.cond(cur["cond"])
+            if res is None or cnd is None:
+                rep.add("C19|java|enum|unmodelled", f"{c['name']}.{fm['name']}: branch form", where)
+                return
+            chain.append((cnd, res))
+            cur = cur.get("else")
+            if cur is None:
+                rep.add("C19|java|enum|unmodelled", f"{c['name']}.{fm['name']}: chain without a final else", where)
+                return
+        else:
+            res = result_of(cur)
+            if res is None:
+                rep.add("C19|java|enum|unmodelled", f"{c['name']}.{fm['name']}: final branch form", where)
+                return
+            chain.append((None, res))
+            cur = None
+    if not chain:
+        rep.add("C19|java|enum|unmodelled", f"{c['name']}.{fm['name']}: body form", where)
+        return
+    table = r.enum_table(en)
+    owner = {}
+    for t in e.tags:
+        for s_ in t.subtags:
+            owner[s_.name] = t.name
+    mx = (1 << e.width) - 1
+    segs, curv = [], 0
+    for lo, hi, tag, carries in table:
+        if curv <= lo - 1:
+            segs.append((curv, lo - 1, None))
+        segs.append((lo, hi, tag))
+        curv = hi + 1
+    if curv <= mx:
+        segs.append((curv, mx, None))
+    for lo, hi, tag in segs:
+        for v in sorted({lo, hi, (lo + hi) // 2}):
+            stats["enum_points"] += 1
+            vals = {"value": _wrap(v, nb)}
+            got = None
+            try:
+                for cnd, res in chain:
+                    if cnd is None or jconc(cnd, vals):
+                        got = res
+                        break
+            except Unknown as u:
+                rep.add("C19|java|enum|unmodelled", f"{c['name']}.{fm['name']}: condition not evaluable ({u})", where)
+                return
+            if tag is None:
+                if got != ("reject",):
+                    rep.add("C19|java|enum|accepts-undeclared", f"{c['name']}.{fm['name']}({v:#x}) returns {got[1]}; {en} does not "
+                            f"declare that value", where)
+                    return
+                continue
+            if got == ("reject",):
+                rep.add("C19|java|enum|rejects-declared", f"{c['name']}.{fm['name']}({v:#x}) throws; the reference gives {tag}", where)
+                return
+            want = {javaeval.camel(tag), javaeval.camel(owner.get(tag, tag)), tag, owner.get(tag, tag)}
+            if got[1] not in want and javaeval.camel(got[1]) not in want:
+                rep.add("C19|java|enum|wrong-tag", f"{c['name']}.{fm['name']}({v:#x}) returns {got[1]}; the reference gives {tag}", where)
+                return
+    # constants return their declared value
+    for t in e.tags:
+        for tg, outer in [(t, None)] + [(s_, t) for s_ in t.subtags]:
+            if tg.value is None:
+                continue
+            cands = [cn for cn in jm.classes if cn.startswith(c["name"] + ".") and javaeval.camel(cn.split(".")[-1]) in
+                     (javaeval.camel(tg.name), tg.name)]
+            for cn in cands:
+                k_ = jm.classes[cn]
+                tm = next((ms[0] for mn, ms in k_["methods"].items() if re.fullmatch(r"to(Byte|Short|Int|Long)", mn)), None)
+                lit = None
+                if tm is not None:
+                    st_ = (tm["body"].get("stmts") or [{}])[0]
+                    x = st_.get("e") if st_.get("k") == "RETURN" else None
+                    while x is not None and x.get("k") in ("TYPE_CAST", "PARENTHESIZED"):
+                        x = x["e"]
+                    if x is not None and x.get("k") in ("INT_LITERAL", "LONG_LITERAL"):
+                        lit = int(x["v"])
+                else:
+                    # nested constant: `super((byte) v)` in its constructor
+                    for ms in k_["methods"].get("<init>", []):
+                        for x in _walk(ms):
+                            if x.get("k") in ("INT_LITERAL", "LONG_LITERAL"):
+                                lit = int(x["v"])
+                if lit is None:
+                    continue
+                stats["enum_points"] += 1
+                if _wrap(lit, nb) != _wrap(tg.value, nb):
+                    rep.add("C19|java|enum|constant-value", f"{cn} carries {lit:#x}; {en}::{tg.name} is declared as {tg.value:#x}", where)
+                    return
+    stats["enums"] += 1
+
+
+def _walk(n):
+    if isinstance(n, dict):
+        yield n
+        for v in n.values():
+            yield from _walk(v)
+    elif isinstance(n, list):
+        for v in n:
+            yield from _walk(v)
+
+
 def check_width(rep, jm, r, decl, c, where, stats):
     """(e) width() -- what parsers advance by and size-delimited loops count down with -- is the encoded size of the
     object: a literal equal to the reference's static size of the whole declaration (inherited fields included), or the
@@ -511,7 +661,7 @@ def run(rep, tier, seed):
     g = rc.gen(tier, seed)
     d, idx = stages.stage_java(tier, seed)
     stats = {"modules": 0, "functions": 0, "obligations": 0, "discharged": 0, "items": 0, "undecided": 0, "helpers": 0,
-             "serializers": 0, "sizes": 0, "widths": 0, "dispatch": 0, "dispatch_undecided": 0, "dispatch_unevaluated": 0, "skipped_modules": 0, "classes": 0}
+             "serializers": 0, "sizes": 0, "widths": 0, "dispatch": 0, "dispatch_undecided": 0, "dispatch_unevaluated": 0, "enums": 0, "enum_points": 0, "skipped_modules": 0, "classes": 0}
     for name in sorted(idx):
         info = idx[name]
         if info["rc"] != 0:
@@ -539,6 +689,16 @@ def run(rep, tier, seed):
                             f"Utils.{mn} ({'big' if big else 'little'}-endian module): {pr}", f"{name} Utils.{mn}")
         if r is None:
             continue
+        for en in r.enums:
+            ec = next((jm.classes[cn] for cn in jm.classes if "." not in cn and javaeval.camel(cn) == javaeval.camel(en)), None)
+            if ec is None or ec["name"] in bad_files:
+                continue
+            try:
+                check_enum(rep, name, jm, r, en, ec, stats)
+            except Exception as ex:
+                import traceback
+                rep.add("C19|evaluator-crashed", f"{type(ex).__name__}: {ex} ({traceback.format_exc().splitlines()[-3].strip()})",
+                        f"{name}:{en}")
         st = statics_of(jm)
         excl = set((g.entry(name).get("opts") or {}).get("exclude", {}).get("java", []))
         for decl, dd in r.decls.items():
